@@ -181,6 +181,12 @@ def rawAnswer (spec : Bool) (unit vcp : PStr) (root : RNode) (q : String) : Stri
           | none => showOut (.str (dec (.int 0) (if isSoup then BS.Gen.Pretty.soupDecodeDefaultEnc else BS.Gen.Pretty.tagDecodeDefaultEnc) false))
           | some e => showOut (.bytes e (dec (.int 0) (some e) false))
         else showOut (prettifyRaw unit vcp e r)
+      else if call == "rc1" || call == "rc0" then
+        match parseEnc enc BS.Gen.Pretty.tagEncodeContentsDefaultEnc with
+        | some e =>
+          showOut (if spec then .bytes e (dec (if call == "rc1" then l else .none) (some e) true)
+                   else renderContentsImpl unit vcp e (call == "rc1") l r)
+        | none => "type-error"
       else if call == "tp" then showToks (canon (plainToks ⟨parseEnc enc BS.Gen.Pretty.tagDecodeDefaultEnc, vcp⟩ r))
       else if call == "tq" then
         showToks (canon (prettyToks ⟨parseEnc enc BS.Gen.Pretty.tagDecodeDefaultEnc, vcp⟩ unit ((levelOf l).getD 0) false r))
@@ -238,6 +244,8 @@ def handle : List String → String
     | some a => showP (indentOf a)
     | none => "bad-arg"
   | ["strip", s] => showP (strip (cps s))
+  | ["sppat", lvl, set, nm] =>
+    bit (shouldPrettyPrintAt (parseLvl lvl) (if set == "N" then none else some (parseSet set)) (cps nm))
   | ["spp", set, nm] =>
     bit (shouldPrettyPrint (if set == "N" then none else some (parseSet set)) (cps nm))
   | _ => "bad-op"
